@@ -532,7 +532,7 @@ pub fn actions_for(m: &ClientModel, max_outstanding: usize, extended: bool) -> V
             a.push(CAct::ResultMalformedStream { tx: t as f64 });
         }
     }
-    for code in ["NetStream.Play.Start", "NetStream.Publish.Start", "NetStream.Play.Reset"] {
+    for code in ["NetStream.Play.Start", "NetStream.Publish.Start", "NetStream.Play.Reset", "NetStream.Publish.BadName", "NetStream.Play.StreamNotFound"] {
         a.push(CAct::OnStatus { code: code.into() });
     }
     for shape in 0..3 {
